@@ -92,7 +92,7 @@ def floorplan(draw, max_modules=4, units=None):
         struct = {}
         if draw(_i(0, 3)) != 0:
             for side in SIDES:
-                k = draw(st.sampled_from([0, 0, 0, 1, 1, 2, 2]))
+                k = draw(st.sampled_from([0, 0, 0, 1, 1, 2, 2, 3]))
                 if k:
                     struct[side] = k
             while sum(struct.values()) > 5:
